@@ -1,2 +1,13 @@
-import Adsg.Proofs.Closure
-#print axioms Adsg.mem_closure_iff_reach
+import Adsg.Props.C09
+#print axioms Adsg.C09.mem_boundedComp
+#print axioms Adsg.C09.nodup_boundedComp
+#print axioms Adsg.C09.mem_enumSpec_iff
+#print axioms Adsg.C09.nodup_enumSpec
+#print axioms Adsg.C09.colRec_exact
+#print axioms Adsg.C09.colRec_nodup
+#print axioms Adsg.C09.enumLib_eq_enumSpec
+#print axioms Adsg.C09.enumLib_nodup
+#print axioms Adsg.C09.validate_iff_enumerated
+#print axioms Adsg.C09.colCount_eq_length
+#print axioms Adsg.C09.count_eq_length
+#print axioms Adsg.C09.open_list_rewrite_sound
